@@ -72,8 +72,17 @@ func (c *Ctx) RuleFsAlways(commands []string) *Result {
 			}
 			bad := ""
 			for _, w := range c.writeContexts(ws) {
+				fromEntry := false
 				data := stripConv(w.dataV)
 				read := dominatingRead(w.fn, w.pathV, w.site)
+				if read == nil && c.callersReadFirst(w.fn, w.pathV) {
+					// the file was read by the caller, which hands the path on: this function is the
+					// whole "after the read" region; judge it from its entry
+					if first, ok := firstCall(w.fn); ok {
+						read = first
+						fromEntry = true
+					}
+				}
 				if read == nil {
 					bad = "no read of the written path dominates the write (looked in " + load.FnName(w.fn) + ")"
 					break
@@ -106,6 +115,9 @@ func (c *Ctx) RuleFsAlways(commands []string) *Result {
 					idx int
 				}
 				stack := []item{{read.Block(), instrIndex(read) + 1}}
+				if fromEntry {
+					stack = []item{{w.fn.Blocks[0], 0}}
+				}
 				for len(stack) > 0 && bad == "" {
 					it := stack[len(stack)-1]
 					stack = stack[:len(stack)-1]
@@ -271,7 +283,11 @@ func (c *Ctx) RuleFormatOnly() *Result {
 			continue
 		}
 		// the map handed to a definition-expansion function
-		var field *ssa.FieldAddr
+		type structField struct {
+			X     ssa.Value
+			Field int
+		}
+		var field *structField
 		allInstrs(fn, func(in ssa.Instruction) {
 			call, ok := in.(*ssa.Call)
 			if !ok {
@@ -284,11 +300,21 @@ func (c *Ctx) RuleFormatOnly() *Result {
 			if _, isDef := defFns[sf]; !isDef {
 				return
 			}
-			for _, a := range call.Call.Args {
+			for i, a := range call.Call.Args {
 				if ld, ok := a.(*ssa.UnOp); ok {
 					if fa, ok := ld.X.(*ssa.FieldAddr); ok {
 						if _, isMap := ld.Type().Underlying().(*types.Map); isMap {
-							field = fa
+							field = &structField{fa.X, fa.Field}
+						}
+					}
+				}
+				// the expansion is a method of the struct that holds the map: the field its loops range over
+				if i < len(sf.Params) {
+					for _, l := range mapLoops(sf) {
+						if ld, ok := l.rng.X.(*ssa.UnOp); ok {
+							if fa, ok := ld.X.(*ssa.FieldAddr); ok && fa.X == ssa.Value(sf.Params[i]) {
+								field = &structField{a, fa.Field}
+							}
 						}
 					}
 				}
@@ -755,17 +781,34 @@ func (c *Ctx) RuleIdxParam() *Result {
 				}
 				// every caller passes a slice of known sufficient length
 				var problems []string
+				var unresolved []string
 				callers := 0
 				for _, e := range c.Graph().In[fn] {
 					cc := callCommon(e.Site)
-					if cc == nil || staticFn(cc) != fn || pi >= len(cc.Args) {
+					// a call through a function value (a table of constructors) passes its arguments in the same positions
+					dyn := cc != nil && e.Kind == "dynamic" && !cc.IsInvoke() && staticFn(cc) == nil && fn.Signature.Recv() == nil
+					if cc == nil || (staticFn(cc) != fn && !dyn) || pi >= len(cc.Args) {
 						continue
 					}
 					callers++
 					minLen := c.sliceMinLen(cc.Args[pi], e.Site, e.Caller, 0)
+					if minLen < 0 && dyn {
+						// handler and pattern name sit in the same row of a table that is a package-level literal
+						if l, ok := c.tablePairedMinLen(cc, pi, fn, e.Site); ok {
+							minLen = l
+						}
+					}
+					if minLen < 0 && dyn && c.submatchOfUnresolvedPattern(cc.Args[pi]) {
+						unresolved = append(unresolved, load.FnName(e.Caller))
+						continue
+					}
 					if minLen <= k {
 						problems = append(problems, fmt.Sprintf("%s passes a slice whose length is not known to exceed %d", load.FnName(e.Caller), k))
 					}
+				}
+				if callers > 0 && len(problems) == 0 && len(unresolved) > 0 {
+					res.undecided(key, pos, fmt.Sprintf("%s[%d] is read in a function that is called through a table (%s) with the submatches of a pattern that is itself picked from a table: which pattern goes with which function is decided by matching keys at run time, which the rule does not model", p.Name(), k, strings.Join(uniq(unresolved), ", ")))
+					continue
 				}
 				if callers == 0 || len(problems) > 0 {
 					res.bad(key, pos, fmt.Sprintf("%s[%d] is read without a length test and %s: an input that yields a shorter slice ends in an index-out-of-range panic", p.Name(), k, strings.Join(problems, "; ")))
@@ -1907,7 +1950,8 @@ func (c *Ctx) holdsDescriptorAcross(F *ssa.Function, in map[*ssa.Function]bool) 
 			return true
 		}
 		// a repository helper that hands out the file it opened
-		if sf := staticFn(cc); sf != nil && c.P.IsRepoFn(sf) && sf.Signature.Results().Len() > 0 && isNamed(derefType(sf.Signature.Results().At(0).Type()), "os", "File") {
+		// (as *os.File, or behind an interface such as io.Reader)
+		if sf := staticFn(cc); sf != nil && c.P.IsRepoFn(sf) && sf.Signature.Results().Len() > 0 && (isNamed(derefType(sf.Signature.Results().At(0).Type()), "os", "File") || types.IsInterface(sf.Signature.Results().At(0).Type())) {
 			opened, closed := false, false
 			allInstrs(sf, func(in2 ssa.Instruction) {
 				if c2 := callCommon(in2); c2 != nil {
@@ -2207,6 +2251,48 @@ func (c *Ctx) RuleWalkFilter(commands ...string) *Result {
 					}
 				}
 			}
+			// a callback that tells directories from files must do so on every path to the per-file work: a
+			// condition regrouped so that one alternative escapes the IsDir test (`!d.IsDir() && a || b`) hands
+			// directories to the code that reads files
+			if bad == "" {
+				testsDir := false
+				allInstrs(cb, func(in ssa.Instruction) {
+					if call, ok := in.(*ssa.Call); ok && call.Call.IsInvoke() && call.Call.Method.Name() == "IsDir" {
+						testsDir = true
+					}
+				})
+				notDir := func(cond ssa.Value, val bool) bool {
+					call, ok := cond.(*ssa.Call)
+					return ok && call.Call.IsInvoke() && call.Call.Method.Name() == "IsDir" && !val
+				}
+				if testsDir {
+					for _, b := range cb.Blocks {
+						if !isProcessing(b) || bad != "" {
+							continue
+						}
+						for _, in := range b.Instrs {
+							cc := callCommon(in)
+							if cc == nil {
+								continue
+							}
+							sf := staticFn(cc)
+							if sf == nil || !c.P.IsRepoFn(sf) || load.ShortPkg(load.FnPkgPath(sf)) == "logger" {
+								continue
+							}
+							handed := false
+							for _, a := range cc.Args {
+								if _, isParam := a.(*ssa.Parameter); isParam {
+									handed = true
+								}
+							}
+							if handed && !c.guardedByEdges(in, notDir) {
+								bad = fmt.Sprintf("the callback tests IsDir() but the entry reaches %s at %s on a path that did not find it to be a file: a directory whose name passes the name test is read as if it were a file and the walk ends there", load.FnName(sf), c.P.InstrPos(in))
+								break
+							}
+						}
+					}
+				}
+			}
 			if bad != "" {
 				res.bad(key, c.P.FnPos(cb), bad)
 			} else {
@@ -2407,4 +2493,362 @@ func (c *Ctx) inputScope() map[string]bool {
 		}
 	}
 	return scope
+}
+
+// tablePairedMinLen: the call is row.handler(..., pattern.FindStringSubmatch(...)) with pattern = patterns[row.name],
+// row an element of a package-level table literal that nothing modifies. The rows whose handler is fn name the
+// patterns fn can be called with; the shortest match any of them yields is the answer.
+func (c *Ctx) tablePairedMinLen(cc *ssa.CallCommon, pi int, fn *ssa.Function, site ssa.Instruction) (int64, bool) {
+	arg := stripConv(cc.Args[pi])
+	_, m, recv, _, ok := regexpCall(asInstr(arg))
+	if !ok || !(m == "FindStringSubmatch" || m == "FindSubmatch") || !knownNonEmpty(c.factsAt(site), arg) {
+		return -1, false
+	}
+	// the pattern: looked up by name, or the value of a range over the pattern map (the name is the key then)
+	var patKey, patMap ssa.Value
+	commaOk := true
+	switch x := recv.(type) {
+	case *ssa.Lookup:
+		patKey, patMap, commaOk = x.Index, x.X, false
+	case *ssa.Extract:
+		switch t := x.Tuple.(type) {
+		case *ssa.Lookup:
+			patKey, patMap = t.Index, t.X
+		case *ssa.Next:
+			if rg, ok := t.Iter.(*ssa.Range); ok && x.Index == 2 {
+				patMap = rg.X
+				for _, r := range referrers(t) {
+					if kx, ok := r.(*ssa.Extract); ok && kx.Index == 1 {
+						patKey = kx
+					}
+				}
+			}
+		}
+	}
+	if patKey == nil || patMap == nil {
+		return -1, false
+	}
+	var entries map[string]*Pattern
+	if ld, ok := patMap.(*ssa.UnOp); ok {
+		if fa, ok := ld.X.(*ssa.FieldAddr); ok {
+			if st, ok := derefType(fa.X.Type()).Underlying().(*types.Struct); ok {
+				for _, pm := range c.patternMaps() {
+					if pm.field == st.Field(fa.Field) && len(pm.unres) == 0 {
+						if entries != nil {
+							return -1, false // filled in two places
+						}
+						entries = pm.entries
+					}
+				}
+			}
+		}
+	}
+	if entries == nil {
+		return -1, false
+	}
+	// the handlers by name
+	type pair struct {
+		name    ssa.Value
+		handler ssa.Value
+	}
+	var pairs []pair
+	if row, handlerField, ok := rowField(cc.Value); ok {
+		// a table of rows {name, ..., handler}
+		krow, keyField, ok := rowField(patKey)
+		if !ok || krow != row {
+			return -1, false
+		}
+		ia := rowSource(row)
+		if ia == nil {
+			return -1, false
+		}
+		var g *ssa.Global
+		switch t := ia.X.(type) {
+		case *ssa.Global:
+			g = t
+		case *ssa.UnOp:
+			g, _ = t.X.(*ssa.Global)
+		}
+		if g == nil {
+			return -1, false
+		}
+		rows, ok := c.globalTableRows(g)
+		if !ok {
+			return -1, false
+		}
+		for _, r := range rows {
+			if hv, has := r[handlerField]; has { // a nil handler is never called
+				pairs = append(pairs, pair{r[keyField], hv})
+			}
+		}
+	} else {
+		// a map from name to handler, looked up with the pattern's name
+		var lk *ssa.Lookup
+		switch x := stripConv(cc.Value).(type) {
+		case *ssa.Lookup:
+			lk = x
+		case *ssa.Extract:
+			lk, _ = x.Tuple.(*ssa.Lookup)
+		}
+		if lk == nil || lk.Index != patKey {
+			return -1, false
+		}
+		ents, ok := c.globalMapLiteral(lk.X)
+		if !ok {
+			return -1, false
+		}
+		for _, e := range ents {
+			pairs = append(pairs, pair{e[0], e[1]})
+		}
+	}
+	min := int64(-1)
+	for _, pr := range pairs {
+		mine := false
+		for _, f := range fnValuesIn(pr.handler, 3) {
+			if f == fn {
+				mine = true
+			}
+		}
+		if !mine {
+			continue
+		}
+		if pr.name == nil {
+			return -1, false
+		}
+		name, ok := constString(pr.name)
+		if !ok {
+			return -1, false
+		}
+		p := entries[name]
+		if p == nil {
+			if commaOk {
+				continue // no pattern of that name: never matched, the handler is not reached through this row
+			}
+			return -1, false
+		}
+		if l := int64(p.NumCap()) + 1; min < 0 || l < min {
+			min = l
+		}
+	}
+	return min, min >= 0
+}
+
+// globalMapLiteral: the entries of a package-level map written as one literal in the package initialiser and
+// never updated (keys constant; values whatever they are).
+func (c *Ctx) globalMapLiteral(v ssa.Value) (entries [][2]ssa.Value, ok bool) {
+	ld, isLd := v.(*ssa.UnOp)
+	if !isLd || ld.Op != token.MUL {
+		return nil, false
+	}
+	gl, isG := ld.X.(*ssa.Global)
+	if !isG {
+		return nil, false
+	}
+	okAll := true
+	stores := 0
+	for _, fn := range c.P.RepoFns {
+		allInstrs(fn, func(in ssa.Instruction) {
+			switch x := in.(type) {
+			case *ssa.Store:
+				if x.Addr != ssa.Value(gl) {
+					return
+				}
+				stores++
+				mk, isMk := x.Val.(*ssa.MakeMap)
+				if fn.Name() != "init" || !isMk {
+					okAll = false
+					return
+				}
+				for _, r := range referrers(mk) {
+					if mu, isMu := r.(*ssa.MapUpdate); isMu {
+						k := stripConv(mu.Key)
+						if _, kc := k.(*ssa.Const); !kc {
+							okAll = false
+						}
+						entries = append(entries, [2]ssa.Value{k, mu.Value})
+					}
+				}
+			case *ssa.MapUpdate:
+				if l2, isL := x.Map.(*ssa.UnOp); isL && l2.X == ssa.Value(gl) {
+					okAll = false
+				}
+			}
+		})
+	}
+	return entries, okAll && stores == 1
+}
+
+// rowField: v is field f of a struct value or variable; returns that struct (value, local variable or element address).
+func rowField(v ssa.Value) (ssa.Value, int, bool) {
+	switch x := stripConv(v).(type) {
+	case *ssa.Field:
+		return x.X, x.Field, true
+	case *ssa.UnOp:
+		if fa, ok := x.X.(*ssa.FieldAddr); ok && x.Op == token.MUL {
+			return fa.X, fa.Field, true
+		}
+	}
+	return nil, 0, false
+}
+
+// rowSource: the element address a row was taken from: the row is the element itself, its value, or a local
+// variable assigned that value once (the variable of a range statement).
+func rowSource(row ssa.Value) *ssa.IndexAddr {
+	switch x := row.(type) {
+	case *ssa.IndexAddr:
+		return x
+	case *ssa.UnOp:
+		if ia, ok := x.X.(*ssa.IndexAddr); ok && x.Op == token.MUL {
+			return ia
+		}
+	case *ssa.Alloc:
+		var src *ssa.IndexAddr
+		n := 0
+		for _, r := range referrers(x) {
+			if st, ok := r.(*ssa.Store); ok && st.Addr == ssa.Value(x) {
+				n++
+				if ld, ok := st.Val.(*ssa.UnOp); ok && ld.Op == token.MUL {
+					src, _ = ld.X.(*ssa.IndexAddr)
+				}
+			}
+		}
+		if n == 1 {
+			return src
+		}
+	}
+	return nil
+}
+
+// globalTableRows: the rows of a package-level slice or array of structs written as one literal
+// (field index -> value); ok only when the variable is assigned once, in the package initialiser, and no
+// element is stored to anywhere else.
+func (c *Ctx) globalTableRows(g *ssa.Global) ([]map[int]ssa.Value, bool) {
+	var arr ssa.Value
+	stores := 0
+	clean := true
+	for _, fn := range c.P.RepoFns {
+		allInstrs(fn, func(in ssa.Instruction) {
+			st, ok := in.(*ssa.Store)
+			if !ok {
+				return
+			}
+			if st.Addr == ssa.Value(g) {
+				stores++
+				if fn.Name() != "init" {
+					clean = false
+				}
+				if sl, ok := st.Val.(*ssa.Slice); ok && sl.Low == nil && sl.High == nil {
+					arr = sl.X
+				}
+				return
+			}
+			// an element assigned through the variable
+			a := st.Addr
+			for i := 0; i < 6; i++ {
+				switch x := a.(type) {
+				case *ssa.FieldAddr:
+					a = x.X
+					continue
+				case *ssa.IndexAddr:
+					a = x.X
+					continue
+				case *ssa.UnOp:
+					if x.X == ssa.Value(g) {
+						clean = false
+					}
+				case *ssa.Global:
+					if x == g && a != st.Addr {
+						clean = false
+					}
+				}
+				break
+			}
+		})
+	}
+	if g.Pkg != nil {
+		if initFn := g.Pkg.Func("init"); initFn != nil && arr == nil {
+			// an array variable is filled in place: rows are addressed through the global itself
+			if _, isArr := derefType(g.Type()).Underlying().(*types.Array); isArr && stores == 0 {
+				clean = false // not modelled
+			}
+		}
+	}
+	al, ok := arr.(*ssa.Alloc)
+	if !ok || !clean || stores != 1 {
+		return nil, false
+	}
+	byIdx := map[int64]map[int]ssa.Value{}
+	max := int64(-1)
+	for _, r := range referrers(al) {
+		ia, ok := r.(*ssa.IndexAddr)
+		if !ok {
+			continue
+		}
+		i, ok := constInt(ia.Index)
+		if !ok {
+			return nil, false
+		}
+		if i > max {
+			max = i
+		}
+		row := byIdx[i]
+		if row == nil {
+			row = map[int]ssa.Value{}
+			byIdx[i] = row
+		}
+		for _, rr := range referrers(ia) {
+			switch x := rr.(type) {
+			case *ssa.FieldAddr:
+				for _, r3 := range referrers(x) {
+					if st, ok := r3.(*ssa.Store); ok && st.Addr == ssa.Value(x) {
+						row[x.Field] = st.Val
+					}
+				}
+			case *ssa.Store:
+				// a whole struct value stored: not a literal the rule reads
+				if x.Addr == ssa.Value(ia) {
+					return nil, false
+				}
+			}
+		}
+	}
+	var rows []map[int]ssa.Value
+	for i := int64(0); i <= max; i++ {
+		if byIdx[i] == nil {
+			byIdx[i] = map[int]ssa.Value{}
+		}
+		rows = append(rows, byIdx[i])
+	}
+	return rows, len(rows) > 0
+}
+
+// submatchOfUnresolvedPattern: v is the result of a Find*Submatch call whose pattern is not a known constant
+// (looked up in a table by name).
+func (c *Ctx) submatchOfUnresolvedPattern(v ssa.Value) bool {
+	v = stripConv(v)
+	if ph, ok := v.(*ssa.Phi); ok {
+		for _, e := range ph.Edges {
+			if c.submatchOfUnresolvedPattern(e) {
+				return true
+			}
+		}
+		return false
+	}
+	_, m, recv, _, ok := regexpCall(asInstr(v))
+	if !ok || !strings.Contains(m, "Submatch") {
+		return false
+	}
+	p, _ := c.Rx().Resolve(recv)
+	return p == nil
+}
+
+// firstCall: some call instruction of fn (only used as a typed placeholder for "the entry of fn").
+func firstCall(fn *ssa.Function) (*ssa.Call, bool) {
+	var out *ssa.Call
+	allInstrs(fn, func(in ssa.Instruction) {
+		if c, ok := in.(*ssa.Call); ok && out == nil {
+			out = c
+		}
+	})
+	return out, out != nil
 }
